@@ -23,6 +23,10 @@ def leaf_cases(ck, coq_in):
             for nme, fn in (("nmne", nic._categorise_mne_count), ("app_executions", app._categorise_num_executions), ("file_access", fil._categorise_num_access)):
                 v = fn(c)
                 ck.case(canon=("cat", nme, lo, me, hi, c), nontrivial=c > lo)
+                want = 3 if c > hi else 2 if c > me else 1 if c > lo else 0
+                if ck.pid == "C09" and v != want:
+                    ck.violation("bin-edge-wrong:%s" % nme, "%s count %d with thresholds low=%d medium=%d high=%d encodes as %r, the documented bins give %d" % (nme, c, lo, me, hi, v, want),
+                                 {"kind": nme, "count": c, "thresholds": [lo, me, hi], "observed": v, "expected": want})
                 if not spaces.Discrete(4).contains(v):
                     ck.violation("leaf-outside-space:%s" % nme, "%s count %d with thresholds %s encodes as %r, not in Discrete(4)" % (nme, c, (lo, me, hi), v), {"kind": nme, "count": c})
                 coq_in.append(("(1, %s)" % zl([lo, me, hi, c]), [v]))
